@@ -56,7 +56,7 @@ func zz6Walk(files map[string][]zz6Rule, file string, seen map[string]bool, out 
 }
 
 func HarnessC06() {
-	nfiles := verif.Bound("files", 3, 4)
+	nfiles := verif.Bound("files", 3, 3)
 	nrules := verif.Bound("rules", 2, 2)
 	files := map[string][]zz6Rule{}
 	matches := map[string]bool{}
